@@ -11,6 +11,7 @@ mod util;
 mod sim;
 mod vbus;
 
+mod eng_c05;
 mod eng_c11;
 mod eng_c12;
 mod eng_c15;
@@ -153,6 +154,7 @@ fn main() {
         "C02" => eng_ring::c02(&mut ctx),
         "C03" => eng_dp::c03(&mut ctx),
         "C04" => eng_dp::c04(&mut ctx),
+        "C05" => eng_c05::c05(&mut ctx),
         "C06" => eng_recover::c06(&mut ctx),
         "C07" => eng_dp2::c07(&mut ctx),
         "C08" => eng_dp::c08(&mut ctx),
